@@ -15,6 +15,10 @@ def size_classes(budget_kb):
         "fit": {"t": "str", "n": max(b - STR_OVERHEAD, 1), "c": "f"},
         "over": {"t": "str", "n": b - STR_OVERHEAD + 1, "c": "o"},
         "none": {"t": "none"},
+        # weak-referenceable values (numpy arrays): the cache keeps a weak reference to them even when they are
+        # not resident (oversize, or evicted while the caller still holds the object)
+        "nd_over": {"t": "nd", "dtype": "int8", "n": b + 1},
+        "nd_third": {"t": "nd", "dtype": "int8", "n": max(b // 3 - 128, 1)},
     }
 
 
@@ -25,6 +29,7 @@ def small_scope_cases(max_len, budget_kb=2, keys=(("f#1", 0), ("f#10", 0)), swee
     for f, a in keys:
         alphabet += [["memoize", f, a, sc["small"]], ["memoize", f, a, sc["small2"]],
                      ["memoize", f, a, sc["over"]], ["memoize", f, a, sc["none"]],
+                     ["memoize", f, a, sc["nd_over"]],
                      ["forget_call", f, a]]
     alphabet += [["forget_function", keys[0][0]], ["forget_everything"], ["reopen"]]
     alphabet += list(extra_ops)
@@ -72,7 +77,7 @@ def history_strategy(max_ops=30, backends=("fs", "fsc", "mem"), overrides=False,
                    "read_meta", "isall", "getmany", "reopen", "reopen"]
                 + ["forget_function", "forget_everything"]))
             if kind == "memoize":
-                cls = draw(st.sampled_from(["val", "val", "third", "third", "fit", "over", "over"]))
+                cls = draw(st.sampled_from(["val", "val", "third", "third", "fit", "over", "over", "nd_over", "nd_third", "nd_third"]))
                 if cls == "val":
                     v = draw(st.sampled_from(pool)) if pool_values else draw(small_vals)
                 else:
